@@ -1430,7 +1430,7 @@ class AggregateFunction(Function):
     @builder
     def filter(self, *filters: Any) -> AnalyticFunction:  # type:ignore[return]
         self._include_filter = True
-        self._filters += filters
+        self._filters = self._filters + list(filters)
 
     def get_filter_sql(self, ctx: SqlContext) -> str:  # type:ignore[return]
         if self._include_filter:
